@@ -52,9 +52,11 @@ Proof.
     + destruct (from_fiber _ t' n'). inversion H. reflexivity.
   - destruct n.
     + destruct (f_unflatten fixed (s_tree s) nx) as [[t' n']|]; [|discriminate]. inversion H. reflexivity.
-    + destruct (deepcopy (s_tree s) nx) as [c n1].
-      destruct (f_unflatten fixed c n1) as [[t' n']|]; [|discriminate].
-      destruct (from_fiber _ t' n'). inversion H. reflexivity.
+    + destruct (l_empty d (s_tree s)).
+      * destruct (mk_fiber nx true []) as [t0 n0]. destruct (from_fiber _ t0 n0). inversion H. reflexivity.
+      * destruct (deepcopy (s_tree s) nx) as [c n1].
+        destruct (f_unflatten fixed c n1) as [[t' n']|]; [|discriminate].
+        destruct (from_fiber _ t' n'). inversion H. reflexivity.
   - destruct n.
     + destruct (f_swap fixed 0 d (s_tree s) nx) as [[t' n']|]; [|discriminate]. inversion H. reflexivity.
     + destruct (deepcopy (s_tree s) nx) as [c n1]. destruct (l_empty d (s_tree s)).
@@ -118,11 +120,16 @@ Proof.
   - destruct n.
     + destruct (f_unflatten true (s_tree s) nx) as [[t' n']|] eqn:E; [|discriminate].
       apply f_unflatten_lo in E. inversion H; subst. cbn. apply fiber_snap_lo. tauto.
-    + destruct (deepcopy (s_tree s) nx) as [c n1] eqn:Ec. apply deepcopy_lo in Ec.
-      destruct (f_unflatten true c n1) as [[t' n']|] eqn:E; [|discriminate].
-      apply f_unflatten_lo' with (lo := nx) in E; [|lia]. destruct E as [Ht Hn].
-      destruct (from_fiber _ t' n') as [s' n''] eqn:Ef. inversion H; subst. cbn.
-      apply from_fiber_lo with (lo := nx) in Ef; [tauto | lia | exact Ht].
+    + destruct (l_empty d (s_tree s)).
+      * destruct (mk_fiber nx true []) as [t0 n0] eqn:Em.
+        apply mk_fiber_lo with (lo := nx) in Em; [| lia | apply lo_es_nil]. destruct Em as [Ht0 Hn0].
+        destruct (from_fiber _ t0 n0) as [s' n''] eqn:Ef. inversion H; subst. cbn [v_res].
+        apply from_fiber_lo with (lo := nx) in Ef; [tauto | lia | exact Ht0].
+      * destruct (deepcopy (s_tree s) nx) as [c n1] eqn:Ec. apply deepcopy_lo in Ec.
+        destruct (f_unflatten true c n1) as [[t' n']|] eqn:E; [|discriminate].
+        apply f_unflatten_lo' with (lo := nx) in E; [|lia]. destruct E as [Ht Hn].
+        destruct (from_fiber _ t' n') as [s' n''] eqn:Ef. inversion H; subst. cbn.
+        apply from_fiber_lo with (lo := nx) in Ef; [tauto | lia | exact Ht].
   - destruct n.
     + destruct (f_swap true 0 d (s_tree s) nx) as [[t' n']|] eqn:E; [|discriminate].
       apply f_swap_lo in E. inversion H; subst. cbn. apply fiber_snap_lo. tauto.
@@ -254,18 +261,13 @@ Proof.
 Qed.
 
 (* ---------- the faithful model meets the oracle *)
-Lemma cv_model_holds n d o ts :
-  c10_wf (CV n d o ts) = true -> holds_cv (length ts) (c10_model (CV n d o ts)) = true.
+Lemma trace_holds n d o ops nx t :
+  forallb (boundedb nx) ops = true -> negb (Nat.eqb (length ops) O) = true ->
+  trace_of true n d o ops nx = Some t -> holds_cv (length ops) (enc_trace t) = true.
 Proof.
-  cbn [c10_wf c10_model]. intros Hwf.
-  apply andb_prop in Hwf. destruct Hwf as [Hwf Hrun]. apply andb_prop in Hwf. destruct Hwf as [Hlen Hb].
-  unfold cv_run in *. destruct (load_all n ts 0) as [ops nx] eqn:El.
-  assert (length ops = length ts) as Hlo.
-  { clear -El. revert ops nx El. generalize 0 as n0. induction ts as [| t ts IH]; intros n0 ops nx El; cbn in El.
-    - inversion El. reflexivity.
-    - destruct (load_snap n t n0) as [s n1]. destruct (load_all n ts n1) as [r n2] eqn:E2.
-      inversion El; subst. cbn. f_equal. eapply IH. exact E2. }
-  destruct (run_vop true d n o ops nx) as [r|] eqn:Er; [|discriminate]. clear Hrun.
+  intros Hb Hlen Hrun. unfold trace_of in Hrun.
+  destruct (run_vop true d n o ops nx) as [r|] eqn:Er; [|discriminate].
+  inversion Hrun; subst t; clear Hrun.
   assert (forall s, In s ops -> hi_snap nx s) as Hhi.
   { intros s Hs. apply boundedb_hi. rewrite forallb_forall in Hb. apply Hb. exact Hs. }
   pose proof (run_vop_unchanged _ _ _ _ _ _ _ Hhi Er) as Hun.
@@ -285,13 +287,50 @@ Proof.
   rewrite Hsr2.
   unfold enc_trace, trace_snaps. cbn [t_s0 t_s1 t_sr t_s2 t_sr1 t_sr2].
   set (snaps := ops ++ ops ++ [v_res r] ++ ops ++ _).
-  unfold holds_cv. rewrite map_length, Hlo, Nat.eqb_refl. rewrite Hlen. cbn [andb].
+  unfold holds_cv. rewrite map_length, Nat.eqb_refl. rewrite Hlen. cbn [andb].
   rewrite !all2_refl, same_struct_refl. cbn [andb Z.eqb]. rewrite !andb_true_r.
   apply forallb_forall. intros v Hv. apply in_map_iff in Hv. destruct Hv as [s [<- Hs]].
   apply disjoint_enc. intros x y Hx Hy Heq.
   apply canon_inj in Heq.
   - subst y. specialize (Hhi s Hs x Hx). specialize (Hfr x Hy). lia.
   - eapply In_flat_map_snaps; [|exact Hx]. unfold snaps. apply in_or_app. left. exact Hs.
+Qed.
+
+Lemma load_all_length n ts : forall n0 ops nx, load_all n ts n0 = (ops, nx) -> length ops = length ts.
+Proof.
+  induction ts as [| t ts IH]; intros n0 ops nx El; cbn in El.
+  - inversion El. reflexivity.
+  - destruct (load_snap n t n0) as [s n1]. destruct (load_all n ts n1) as [r n2] eqn:E2.
+    inversion El; subst. cbn. f_equal. eapply IH. exact E2.
+Qed.
+
+Lemma cv_model_holds n d o ts :
+  c10_wf (CV n d o ts) = true -> holds_cv (length ts) (c10_model (CV n d o ts)) = true.
+Proof.
+  cbn [c10_wf c10_model]. intros Hwf.
+  apply andb_prop in Hwf. destruct Hwf as [Hwf Hrun]. apply andb_prop in Hwf. destruct Hwf as [Hlen Hb].
+  unfold cv_run in *. destruct (load_all n ts 0) as [ops nx] eqn:El.
+  pose proof (load_all_length _ _ _ _ _ El) as Hlo.
+  destruct (trace_of true n d o ops nx) as [t|] eqn:Et; [|discriminate].
+  rewrite <- Hlo. eapply trace_holds; [exact Hb | rewrite Hlo; exact Hlen | exact Et].
+Qed.
+
+Lemma cv2_model_holds n d o1 o2 t :
+  c10_wf (CV2 n d o1 o2 t) = true -> holds_cv 1 (c10_model (CV2 n d o1 o2 t)) = true.
+Proof.
+  cbn [c10_wf c10_model]. unfold cv2_run. intros Hwf.
+  destruct (first_step true n d o1 t) as [r1|]; [|discriminate].
+  apply andb_prop in Hwf. destruct Hwf as [Hb Hrun].
+  destruct (trace_of true (res_ranks n o1) d o2 [v_res r1] (v_nx r1)) as [tr|] eqn:Et; [|discriminate].
+  change 1%nat with (length [v_res r1]). eapply trace_holds; [|reflexivity | exact Et].
+  cbn [forallb]. rewrite Hb. reflexivity.
+Qed.
+
+Lemma cj_model_holds n d o1 t :
+  c10_wf (CJ n d o1 t) = true -> holds_cj (c10_model (CJ n d o1 t)) = true.
+Proof.
+  cbn [c10_wf c10_model]. destruct (first_step true n d o1 t) as [r1|]; [|discriminate].
+  intros _. unfold holds_cj. rewrite same_struct_refl. reflexivity.
 Qed.
 
 Lemma cr_model_holds n a b obs : holds_cr (c10_model (CR n a b obs)) = true.
@@ -306,9 +345,11 @@ Qed.
 Theorem c10_model_holds : forall c, c10_wf c = true -> holds c10_checker c (model c10_checker c) = true.
 Proof.
   intros c Hwf. cbn [holds model c10_checker]. unfold c10_holds. rewrite Hwf. cbn [andb].
-  destruct c as [n d o ts | n a b obs].
+  destruct c as [n d o ts | n a b obs | n d o1 o2 t | n d o1 t].
   - apply cv_model_holds. exact Hwf.
   - apply cr_model_holds.
+  - apply cv2_model_holds. exact Hwf.
+  - apply cj_model_holds. exact Hwf.
 Qed.
 
 (* ---------- corollaries used by the property file *)
